@@ -777,6 +777,7 @@ class ProtoClassMetadata:
         "field_name_by_number",
         "meta_by_field_name",
         "sorted_field_names",
+        "field_name_by_key",
     )
 
     oneof_group_by_field: Dict[str, str]
@@ -815,6 +816,13 @@ class ProtoClassMetadata:
         )
         self.default_gen = self._get_default_gen(cls, fields)
         self.cls_by_field = self._get_cls_by_field(cls, fields)
+        # The keys to_dict() emits, in either casing, for each field. Re-casing a key
+        # is not always reversible (address_line_1 -> addressLine1 -> address_line1),
+        # so from_dict() looks keys up here when snake-casing does not hit a field.
+        self.field_name_by_key = {}
+        for casing in (camel_case, snake_case):
+            for name in by_field_name:
+                self.field_name_by_key.setdefault(casing(name).rstrip("_"), name)
 
     @staticmethod
     def _get_default_gen(
@@ -1710,6 +1718,8 @@ class Message(ABC):
         init_kwargs: Dict[str, Any] = {}
         for key, value in mapping.items():
             field_name = safe_snake_case(key)
+            if field_name not in cls._betterproto.meta_by_field_name:
+                field_name = cls._betterproto.field_name_by_key.get(key, field_name)
             try:
                 meta = cls._betterproto.meta_by_field_name[field_name]
             except KeyError:
@@ -2009,6 +2019,8 @@ class Message(ABC):
         self._serialized_on_wire = True
         for key in value:
             field_name = safe_snake_case(key)
+            if field_name not in self._betterproto.meta_by_field_name:
+                field_name = self._betterproto.field_name_by_key.get(key, field_name)
             meta = self._betterproto.meta_by_field_name.get(field_name)
             if not meta:
                 continue
